@@ -487,7 +487,7 @@ impl World {
                     set_addrs[i] = s.verif_addr();
                     *slot = Some(s);
                 }
-                Root { r: [None, None], sets }
+                Root { r: [None, None], sets, serial: new_root_serial() }
             })
         });
         for (i, a) in set_addrs.iter().enumerate().take(nsets) {
